@@ -65,9 +65,84 @@ pub fn run(report: &Report, thorough: bool) -> Evidence {
     }
     words.push("sesh".into());
     words.push("ami".into());
+    // data-guided words, one group per FINAL CHARACTER CLASS of a non-first candidate (the joining of a learned base with a
+    // suffix depends on it: final khanda-ta, anusvara, vowel sign, independent vowel, chandrabindu, visarga, hasanta, plain
+    // consonant): all lower-case words of <= 3 letters and the bundled auto-correct keys of <= 8 letters are typed once, and
+    // the first few words of each class are added
+    let mut class_words: Vec<(String, String)> = vec![];
+    {
+        let az: Vec<char> = ('a'..='z').collect();
+        let mut cand: Vec<String> = vec![];
+        for &a in &az {
+            for &b in &az {
+                cand.push(format!("{}{}", a, b));
+                for &c in &az {
+                    cand.push(format!("{}{}{}", a, b, c));
+                }
+            }
+        }
+        let mut ac: Vec<String> = dict.autocorrect.keys().filter(|k| k.len() >= 4 && k.len() <= 8 && k.chars().all(|c| c.is_ascii_lowercase())).cloned().collect();
+        ac.sort();
+        cand.extend(ac);
+        let found: std::sync::Mutex<Vec<(usize, &'static str, String)>> = std::sync::Mutex::new(vec![]);
+        let chunk = (cand.len() + 63) / 64;
+        par_for(
+            64,
+            1,
+            |w| scratch_xdg(&format!("c09scan-{}", w)),
+            |xdg, j| {
+                let o = Opts::phonetic(&real_db(), xdg);
+                crate::drv::clear_user_files(&o);
+                let mut ctx = Ctx::new(&o).expect("ctx");
+                ctx.with_pre = false;
+                let mut local = vec![];
+                for (k, w) in cand.iter().enumerate().skip(j * chunk).take(chunk) {
+                    let _ = ctx.apply(&Ev::Finish);
+                    let mut last = None;
+                    for ch in w.chars() {
+                        last = ctx.ch(ch).ok();
+                    }
+                    let Some(r) = last else { continue };
+                    for c in r.items().iter().skip(1) {
+                        let cls = match c.chars().last() {
+                            Some('\u{09CE}') => "khanda-ta",
+                            Some('\u{0982}') => "anusvara",
+                            Some('\u{0981}') => "chandrabindu",
+                            Some('\u{0983}') => "visarga",
+                            Some('\u{09CD}') => "hasanta",
+                            Some(x) if crate::bn::is_sign(x) => "sign",
+                            Some(x) if crate::bn::is_indep_vowel(x) => "vowel",
+                            _ => continue,
+                        };
+                        local.push((k, cls, w.clone()));
+                    }
+                }
+                found.lock().unwrap().extend(local);
+            },
+            |_| (),
+        );
+        let mut found = found.into_inner().unwrap();
+        found.sort();
+        found.dedup();
+        let per_class = if thorough { 12 } else { 4 };
+        let mut count: std::collections::HashMap<&str, usize> = std::collections::HashMap::new();
+        for (_, cls, w) in found {
+            if words.contains(&w) || class_words.iter().any(|(_, x)| *x == w) {
+                continue;
+            }
+            let n = count.entry(cls).or_default();
+            // khanda-ta and anusvara are the two classes the joining rewrites: more of them
+            let cap = if cls == "khanda-ta" || cls == "anusvara" { per_class * 3 } else { per_class };
+            if *n < cap {
+                *n += 1;
+                class_words.push((cls.to_string(), w));
+            }
+        }
+        words.extend(class_words.iter().map(|(_, w)| w.clone()));
+    }
     // (the last wrapping is a literal colon after the word, typed as colon + back-tick)
     let wraps: Vec<(&str, &str)> = vec![("", ""), ("(", ")"), ("\"", "\""), ("'", "'"), ("", "."), ("", "?!"), ("", ":`")];
-    let suffixes = ["er", "ke", "gulo", "ra", "te", "e", "r", "i", "o"];
+    let suffixes = ["er", "ke", "gulo", "ra", "te", "e", "r", "i", "o", "der", "ta", "ei"];
     // (english, smart, ansi)
     let cfgs: Vec<(bool, bool, bool)> = if thorough {
         vec![(false, true, false), (true, true, false), (true, false, false), (false, false, false), (false, true, true), (true, false, true)]
@@ -453,6 +528,7 @@ pub fn run(report: &Report, thorough: bool) -> Evidence {
     ev.set("preselected_commits_checked", preselected_commits.load(Ordering::Relaxed));
     ev.set("true_new_contexts_created_over_written_stores", new_ctx_loads.load(Ordering::Relaxed));
     ev.set("words", words.len());
+    ev.set("data_guided_words_by_final_character_class", json!(class_words.iter().map(|(c, w)| format!("{}:{}", c, w)).collect::<Vec<_>>()));
     ev.set("wrappings", json!(wraps.iter().map(|(l, t)| format!("{}w{}", l, t)).collect::<Vec<_>>()));
     ev.set("configurations", cfgs.len());
     ev.set("interleaved_learning_prefixes", interleave.len());
